@@ -33,6 +33,56 @@ def call(f, fmt):
         return "err " + canon_exc(e)
 
 
+
+def seed_shapes(ctx):
+    """the KEK for a key identifier at the seed envelope's OWN position, for every shape a seed envelope has there: MS-GKDI 2.2.4 gives an
+    envelope positioned at L2 = 31 no L2 key (only the L1 key — the shape KeyCache builds from a root key and a DC returns), elsewhere the
+    L2 key and the previous L1 key.  The receiving side's KEK must be the construction's (independent HMAC chain → L2 seed → KEK) at equal
+    and at earlier positions, for nonce and public-key (ECDH P-256, real crypto) identifiers"""
+    from props import c02
+    rng = ctx.rng
+    root, sd = bytes(range(3, 67)), b"\x01\x02\x03\x04"
+    for hn in (HASHES if ctx.thorough else [HASHES[0], HASHES[3]]):
+        spec = c02.SpecChain(lambda k, cc: c02.kbkdf_hmac(hn.lower(), k, c02.LABEL, cc, 64), root, sd, 361)
+        for (a, b) in ((31, 31), (17, 31), (0, 31), (17, 13), (0, 0), (31, 0)):
+            for (k1, k2) in spec.envelopes(a, b):
+                for (r1, r2) in {(a, b), (a, max(b - 1, 0)), (max(a - 1, 0), 31)}:
+                    if (r1, r2) > (a, b):
+                        continue
+                    for mode in ("nonce", "ECDH_P256"):
+                        sa = "DH" if mode == "nonce" else mode
+                        env = gen.make_env(l0=361, l1=a, l2=b, l1_key=k1, l2_key=k2, kdf_parameters=gen.kdf_params(hn), secret_algorithm=sa, secret_parameters=b"",
+                                           private_key_length=256 if mode != "nonce" else 512, public_key_length=512)
+                        seed = spec.K2[(r1, r2)]
+                        inp = {"scenario": "seed_shapes", "hash": hn, "mode": mode, "envelope": [a, b], "l1_key": "present" if k1 else "empty",
+                               "l2_key": "present" if k2 else "empty", "key_identifier_position": [r1, r2]}
+                        try:
+                            if mode == "nonce":
+                                kid = gen.make_kid(l0=361, l1=r1, l2=r2, flags=0, key_info=gen.rand_bytes(rng, 32))
+                                want = refimpl.kek_nonce(hn.lower(), seed, kid.key_info)
+                            else:
+                                # the sender's side, from the group public key that belongs to this L2 seed (independent implementation)
+                                pub = refimpl.group_public_key(hn.lower(), seed, sa, b"", 256)
+                                pub_env = gen.make_env(l0=361, l1=r1, l2=r2, l1_key=b"", l2_key=pub, flags=1, kdf_parameters=gen.kdf_params(hn), secret_algorithm=sa,
+                                                       secret_parameters=b"", private_key_length=256, public_key_length=512)
+                                want, kid = pub_env.new_kek()
+                                if want != refimpl.kek_public(hn.lower(), sa, refimpl.group_private_key(hn.lower(), seed, sa, 256), kid.key_info):
+                                    continue        # (the sender's side is the other scenarios' concern)
+                            got = env.get_kek(kid)
+                        except ValueError as e:
+                            if mode != "nonce":
+                                ctx.count("seed_shapes:ec_scalar_refused")
+                                continue
+                            got = ("raised ValueError: " + str(e)[:60]).encode()
+                        except Exception as e:  # noqa
+                            got = ("raised " + canon_exc(e)).encode()
+                        ctx.count("seed_shapes:" + mode + (":own_position" if (r1, r2) == (a, b) else ":earlier"))
+                        if got != want:
+                            ctx.violation("the receiving side's KEK at a seed envelope's own / earlier position is not the construction's", inp,
+                                          hx(got)[:64] if not got.startswith(b"raised") else got.decode(), hx(want)[:64])
+                            return
+
+
 def run(ctx):
     import dpapi_ng._gkdi as g
     prelude.validate(ctx)
@@ -103,6 +153,7 @@ def run(ctx):
         if log.bad:
             ctx.violation("crypto API called with unexpected parameters", {"params": str(log.bad[0])}, "BADPARAM", "fixed parameters")
     ctx.compare_batch(cases, nontrivial=lambda line, impl: impl.startswith("ok"))
+    seed_shapes(ctx)
 
     # ---- (b) real crypto: both sides and the independent implementation ----------------------------
     n_real = lead_real = 0
@@ -303,6 +354,12 @@ def search(ctx, broken, disagreements):
 def replay(ctx, payload):
     v = payload["violation"]["input"]
     print("recorded input:", v)
+    if v.get("scenario") == "seed_shapes":
+        c2 = type(ctx)(ctx.prop, "quick", ctx.seed)
+        seed_shapes(c2)
+        for x in c2.violations:
+            print(" ", x["what"], x["input"], x["observed"])
+        return not c2.violations
     if "draw" not in v:
         return False
     mode = v["mode"]
